@@ -163,9 +163,24 @@ def array_products():
         yield ('array_in_array', i, j), 'x = [%s];' % a.replace('1', b, 1)
 
 
+def noin_products():
+    """'in' in the first clause of a for statement: excluded at every operator level of the NoIn productions
+    (12.6), admitted again inside brackets, calls, functions and the middle operand of ?:"""
+    inits = ['%s', 'a = %s', 'a += %s', 'a, %s', '%s, a', 'var v = %s', 'var u, v = %s', 'var u = 1, v = %s, w', 'var v = %s, w = 2',
+             'a ? b : %s', 'a ? %s : b', '%s ? a : b', 'a || %s', 'a && %s', 'a | %s', 'a ^ %s', 'a & %s', 'a == %s', 'a !== %s',
+             'a < %s', 'a instanceof %s', 'a << %s', 'a + %s', 'a * %s', '!%s', 'typeof %s', 'new %s', 'var v = a ? b : %s',
+             'var v = a || %s', 'var v = w = %s']
+    operands = ['x in y', '(x in y)', '[x in y]', 'f(x in y)', 'o[x in y]', '{k: x in y}', 'function () { return x in y; }',
+                'x in y in z', '(x) in y', 'x in (y)', 'x', 'new C(x in y)']
+    for (i, init), (j, op) in itertools.product(enumerate(inits), enumerate(operands)):
+        yield ('noin', i, j), 'for (%s; ; ) ;' % (init % op)
+        if i % 3 == 0:
+            yield ('noin_forin', i, j), 'for (%s in o) ;' % (init % op)
+
+
 ALL = [binary_products, binary_products_parenthesised, unary_products, member_products, statement_products,
-       keyword_adjacency, keyword_property_products, accessor_products, array_products]
-LEXICAL = [keyword_property_products, accessor_products]
+       keyword_adjacency, keyword_property_products, accessor_products, array_products, noin_products]
+LEXICAL = [keyword_property_products, accessor_products, noin_products]
 
 
 def lexical_products():
